@@ -29,7 +29,11 @@ A case is a route list plus a handful of requests:
          | ["grp", null | name, RX]   a capturing group of the regex's own, `(…)` or `(?P<_gN>…)`: transparent for matching;
                                       an inner *named* group also shows up in the real match dictionary under its own name
                                       (keys `_gN` are dropped before comparing — they are not placeholders)
-mode "mapper": RoutesMapper().connect(...) then RoutesMapper.__call__(Request(environ))  (re-connects and static allowed)
+mode "mapper": RoutesMapper().connect(...) then RoutesMapper.__call__(Request(environ))  (re-connects and static allowed).
+               A route may carry "stage": n (non-decreasing along the list): ONE mapper lives through the whole case, every
+               request is dispatched after the declarations of stage 0, again after those of stage 1, … — dispatch, connect
+               (a name re-declared static / non-static / with another or the same pattern, or a new name), dispatch — and
+               after every stage the outcomes are compared with the oracle and the model run on the declarations so far
 mode "router": Configurator.add_route(...) flat, Router.__call__(environ, start_response), a catch-all view records
                request.matched_route.name / request.matchdict
 mode "include": the same with the routes declared inside nested config.include(...) callables ("depth" per route)
@@ -653,7 +657,22 @@ def impl_mapper(case):
             recorded.append(pattern)
             return re.compile(pattern, flags)
     real_re = getattr(UD, 're', None)
+
+    def dispatch(req):
+        del log[:]
+        try:
+            info = mapper(Request(blank_environ(req)))
+            if info['route'] is None:
+                return 'none' if info['match'] is None else 'raised:match-without-route'
+            return {'id': ids.get(id(info['route']), -1), 'match': canon_match(info['match'])}
+        except Exception as e:
+            return err_name(e)
+    stage_outs, cur_stage = [], 0
     for rid, r in enumerate(case['routes']):
+        if r.get('stage', 0) > cur_stage:
+            # the mapper has been answering requests with the declarations so far; now more are made
+            stage_outs.append({'n': rid, 'outs': [dispatch(q) for q in case['reqs']]})
+            cur_stage = r.get('stage', 0)
         del recorded[:]
         try:
             if real_re is re:
@@ -706,7 +725,8 @@ def impl_mapper(case):
         except Exception:
             nmatch.append(None)
     return {'compile': compile_, 'regex': regex, 'gen': gen, 'routelist': [ids[id(r)] for r in mapper.routelist],
-            'statics': [ids[id(r)] for r in mapper.static_routes], 'outs': outs, 'nmatch': nmatch, 'history': history, 'history_calls': history_calls}
+            'statics': [ids[id(r)] for r in mapper.static_routes], 'outs': outs, 'nmatch': nmatch, 'history': history, 'history_calls': history_calls,
+            'stage_outs': stage_outs}
 
 
 def write_match(m, op, key, val):
@@ -957,12 +977,44 @@ def decode_model_out(o):
 # ------------------------------------------------------------------------------------------------ checking one case
 
 
-def check_case(case, replies=None):
+def stage_subcases(case):
+    """the declarations made before each later stage, as cases of their own: [(n, sub-case)…]"""
+    out, cur = [], 0
+    if case['mode'] != 'mapper':
+        return out
+    for i, r in enumerate(case['routes']):
+        if r.get('stage', 0) > cur:
+            out.append((i, dict(case, routes=case['routes'][:i])))
+            cur = r.get('stage', 0)
+    return out
+
+
+def check_case(case, replies=None, stage_replies=None):
     """-> (impl result, mismatches, violations, info)"""
     got = impl(case)
     mism, viol, info = [], [], {'per_req': []}
     router = case['mode'] != 'mapper'
     oracle_on = all(r['intent'] is not None for r in case['routes'])
+    # a long-lived mapper: what it answered after each earlier stage of declarations
+    for si, (n, sub) in enumerate(stage_subcases(case)):
+        so = got.get('stage_outs', [])
+        if si >= len(so) or so[si]['n'] != n:
+            mism.append({'case': case, 'impl': {'stage_outs': so}, 'model': 'one dispatch round before declaration %d' % n}); break
+        for k, req in enumerate(case['reqs']):
+            g = so[si]['outs'][k]
+            exp = expected(sub, req) if oracle_on else None
+            if exp is not None and g != exp['out']:
+                viol.append({'case': case, 'impl': {'after_declarations': n, 'request': k, 'out': g}, 'expected': exp['out'],
+                             'detail': 'after the first %d declarations on this mapper, the selected route is not the first declared '
+                                       'route whose pattern matches and whose predicates hold' % n})
+                break
+            if stage_replies is not None and si < len(stage_replies) and stage_replies[si][k] is not None:
+                mo = stage_replies[si][k]
+                if 'error' in mo or mo.get('unsupported'):
+                    continue
+                m_out = with_writes(sub, decode_model_out(mo['outcome']))
+                if m_out != g:
+                    mism.append({'case': case, 'impl': {'after_declarations': n, 'request': k, 'out': g}, 'model': m_out}); break
     # configuration-time outcome
     if router and 'config_error' in got:
         info['config_error'] = got['config_error']
@@ -1432,6 +1484,33 @@ def gen_case(rng, mode=None, malformed=False):
             n = len(routes)
     if mode == 'mapper' and n >= 2 and rng.random() < 0.15:
         routes[-1]['name'] = routes[rng.randrange(n - 1)]['name']      # re-connect an existing name
+    if mode == 'mapper' and rng.random() < 0.35:
+        # dispatch -> connect -> dispatch on ONE mapper: later stages re-declare existing names (static, non-static, with the
+        # same or another pattern) or add new ones, after the mapper has already answered every request
+        stage = 0
+        for _ in range(rng.choice([1, 1, 2])):
+            stage += 1
+            for _ in range(rng.choice([1, 1, 2])):
+                live = [x for x in routes if not x['static']]
+                r = rng.random()
+                if live and r < 0.85:
+                    old = rng.choice(live)
+                    new = json.loads(json.dumps(old))
+                    k = rng.random()
+                    if k < 0.4:
+                        new['static'] = True                      # the name becomes a generation-only route
+                    elif k < 0.6:
+                        pass                                      # same pattern again: moves to the end
+                    else:
+                        other = mk_route(rng, old['name'], variant(rng, rng.choice([x['intent'] for x in routes if x['intent']] or [base])), False, static_ok=False)
+                        new['pattern'], new['intent'] = other['pattern'], other['intent']
+                    if rng.random() < 0.3:
+                        new['preds'] = gen_preds(rng, new['intent'], False)
+                else:
+                    new = mk_route(rng, 'n%d_%d' % (stage, len(routes)), gen_intent(rng), False)
+                new['stage'] = stage
+                routes.append(new)
+        n = len(routes)
     if mode == 'include':
         d = 0
         for r in routes:
@@ -1477,6 +1556,7 @@ def permuted(rng, case, k):
     for _ in range(k):
         c = json.loads(json.dumps(case))
         rng.shuffle(c['routes'])
+        c['routes'].sort(key=lambda r: r.get('stage', 0))          # stages stay in order (stable)
         if c['mode'] == 'include':
             for r, r0 in zip(c['routes'], case['routes']):
                 r['depth'] = r0['depth']
@@ -1576,13 +1656,21 @@ def run_cases(ctx, cases, dist, seen, nontriv, use_model=True):
     replies_all = None
     if use_model and ctx.driver_path:
         lines, spans = [], []
+        stage_spans = []
         for c in cases:
             ls, lib = model_lines(c)
             spans.append((len(lines), len(ls), lib))
             lines += ls
+            ss = []
+            for _, sub in stage_subcases(c):
+                sl, _ = model_lines(sub)
+                ss.append((len(lines), len(sl)))
+                lines += sl
+            stage_spans.append(ss)
         out = ctx.run_model(lines)
-        replies_all = []
-        for (a, n, lib), c in zip(spans, cases):
+        replies_all, stage_all = [], []
+        for (a, n, lib), c, ss in zip(spans, cases, stage_spans):
+            stage_all.append([out[x:x + y] for x, y in ss])
             reps = out[a:a + n]
             # printer cross-check: the driver's text of every tree equals the text this harness gave to add_route
             if reps and 'rxtext' in reps[0]:
@@ -1595,7 +1683,9 @@ def run_cases(ctx, cases, dist, seen, nontriv, use_model=True):
             replies_all.append(reps)
     for ci, case in enumerate(cases):
         reps = replies_all[ci] if replies_all is not None else None
-        got, m, v, info = check_case(case, reps)
+        got, m, v, info = check_case(case, reps, stage_all[ci] if replies_all is not None else None)
+        if case['mode'] == 'mapper' and any(r.get('stage', 0) for r in case['routes']):
+            bump(dist['features'], 'dispatch / connect / dispatch on one mapper')
         mism += m
         viol += v
         bump(dist['mode'], case['mode'])
@@ -1742,6 +1832,7 @@ def run(ctx):
             if ctx.tier == 'thorough' and len(c['routes']) <= 4 and c['mode'] == 'mapper' and i % 10 == 0:
                 for perm in itertools.permutations(c['routes']):
                     c2 = json.loads(json.dumps(c)); c2['routes'] = json.loads(json.dumps(list(perm)))
+                    c2['routes'].sort(key=lambda r: r.get('stage', 0))
                     cases.append(c2)
             else:
                 cases += permuted(rng, c, nperm)
@@ -1841,10 +1932,12 @@ def replay(ctx, rep):
     if case is None:
         return {'violates': False, 'note': 'replay names broken obligations only', 'broken': rep.get('broken_obligations')}
     reps = None
+    sreps = None
     if ctx.driver_path:
         lines, _ = model_lines(case)
         reps = ctx.run_model(lines)
-    got, m, v, info = check_case(case, reps)
+        sreps = [ctx.run_model(model_lines(sub)[0]) for _, sub in stage_subcases(case)]
+    got, m, v, info = check_case(case, reps, sreps)
     exp = [expected(case, q) for q in case['reqs']]
     return {'case': case, 'impl': got, 'model': [None if r is None or r.get('unsupported') else decode_model_out(r['outcome']) for r in (reps or [])],
             'spec': [None if e is None else e['out'] for e in exp], 'mismatch': m, 'violations': v,
